@@ -573,7 +573,7 @@ class Walker:
             if name in ('abs', 'absolute') and x.kind == REFL and iszero(x.c):
                 r.extra['absgrid'] = True
             return r
-        if name in ('sum', 'prod', 'mean'):
+        if name in ('sum', 'prod', 'mean', 'reduce'):
             x = args[0]
             if isinstance(x, D) and x.scalar:
                 return scalar(_SUM(x.centre) if x.centre is not None else None)
@@ -731,6 +731,8 @@ class Walker:
         return self.select(base, idx, e)
 
     def select(self, base, idx, e):
+        if isinstance(base, D) and base.scalar and isinstance(idx, tuple) and idx[0] == 'mask':
+            return scalar(fresh('coll'))         # a selection from a collection that does not depend on the window index
         if isinstance(base, D) and isinstance(idx, tuple) and idx[0] == 'mask':
             info = idx[1]
             if info['side'] in ('pos', 'neg'):
